@@ -24,8 +24,8 @@ def check(ctx):
     ctx.run(R.rule_prune_before_execute, "C04.D3", rr)
     from . import stalerules as S
     from .common import rule_pruning_preserves_paths
-    ctx.run(S.rule_ancestor_closure, "C04.D3", rr)
-    ctx.run(rule_pruning_preserves_paths, "C04.D3")
+    from .prunerules import rule_pruning_evaluated
+    ctx.run(rule_pruning_evaluated, "C04.D3", rr)
     ctx.run(E.rule_callbacks_only_via_engine, "C04.D2", r, [rr.runcb, rr.stalecb])
     ctx.run(E.rule_first_error, "C04.D1", r)
     ctx.run(R.rule_no_value_on_failure, "C04.D1", rr)
